@@ -406,6 +406,7 @@ class Ovld:
         self.__name__ = name
         self._defns = {}
         self._code_slots = {}
+        self._recode_globals = {}
         self._locked = False
         self.mixins = []
         self.argument_analysis = ArgumentAnalyzer()
@@ -610,6 +611,18 @@ class Ovld:
         self.dispatch.__doc__ = self.mkdoc()
         self.dispatch.__code__ = rename_code(dispatch.__code__, self.shortname)
         _verif.point("compile.swapped", ov=self.id)
+
+        # Rewritten methods read the table through names in their modules'
+        # globals. Activations of methods that are not registered any more
+        # (a generator handed out earlier, a method that unregistered itself)
+        # must read the current table too
+        for glb in self._recode_globals.values():
+            glb[f"___MAP{self.id}__"] = self.map
+            glb[f"___OVLD{self.id}__"] = self.dispatch
+            for key in self.argument_analysis.counts:
+                glb[f"___TYPE{self.id}_{key}__"] = (
+                    self.argument_analysis.lookup_for(key)
+                )
 
         self._compiled = True
         _verif.point("compile.done", ov=self.id)
